@@ -204,6 +204,12 @@ def run(ctx):
             tries.append(kv)
             if kv.get("ok") == "1":
                 break
+            if kv.get("outcome") == "hang-running" and attempt == 0:
+                # instructions were still being dispatched when the bound expired (slow machine): once more, 4x the bound
+                kv = run_program(n, e, p, jit, bound * 4)
+                tries.append(kv)
+                if kv.get("ok") == "1":
+                    break
             # a crash that carries the signature of a C15 / C19 defect says nothing about progress: run again
             if ABORT_K15A.search(kv["stderr"]) or ABORT_ALLOC.search(kv["stderr"]):
                 continue
